@@ -950,17 +950,20 @@ class Crystal(object):
         modified = False
         # check the possible vector reductions (edited to handle 2 and 3 dimensions)
         asq = np.dot(self.lattice.T, self.lattice)
-        u = np.around(asq[0, 1] / asq[0, 0])
+        # a ratio of +-1/2 (hexagonal cells) must count as reduced also when roundoff puts it just beyond 1/2: a_j -> a_j +- a_i
+        # keeps the length and flips the sign of the ratio, so the recursion would never end
+        rnd = lambda r: 0. if abs(r) <= 0.5 + 1e-8 else np.around(r)
+        u = rnd(asq[0, 1] / asq[0, 0])
         if u != 0:
             super[0, 1] = -int(u)
             modified = True
         elif self.dim > 2:
-            u = np.around(asq[0, 2] / asq[0, 0])
+            u = rnd(asq[0, 2] / asq[0, 0])
             if u != 0:
                 super[0, 2] = -int(u)
                 modified = True
             else:
-                u = np.around(asq[1, 2] / asq[1, 1])
+                u = rnd(asq[1, 2] / asq[1, 1])
                 if u != 0:
                     super[1, 2] = -int(u)
                     modified = True
